@@ -85,12 +85,18 @@ fn main() {
             let mut pending: Vec<u8> = vec![];
             let mut iface: Option<String> = None;
             let mut buf = [0u8; 8192];
+            let mut fed = usize::MAX;
             loop {
-                let n = match stdin.read(&mut buf) {
-                    Ok(0) | Err(_) => break,
-                    Ok(n) => n,
-                };
-                pending.extend_from_slice(&buf[..n]);
+                // bytes behind an upgrade request are handed to the upgraded handler right away
+                let again = iface.is_some() && !pending.is_empty() && pending.len() != fed;
+                if !again {
+                    let n = match stdin.read(&mut buf) {
+                        Ok(0) | Err(_) => break,
+                        Ok(n) => n,
+                    };
+                    pending.extend_from_slice(&buf[..n]);
+                }
+                fed = pending.len();
                 let mut out = vec![];
                 let mut rd: &[u8] = &pending;
                 match svc.handle(&mut rd, &mut out, iface.clone()) {
